@@ -728,9 +728,9 @@ fn aim_span(seed: u64, policy: &str) -> Script {
                 }
             }
         }
-        if live.rng.chance(40) {
+        if live.rng.chance(60) {
             // start the spanning entry at a chosen distance from the end of the file
-            let gap = [0usize, 3, 6, 7, 8, 20, 40_000][live.rng.below(7) as usize];
+            let gap = [0usize, 0, 3, 6, 6, 7, 8, 20, 40_000][live.rng.below(9) as usize];
             let q = live.rng.below(nq as u64) as usize;
             live.fill_to(q, gap, true);
             if let Some(last) = live.last_position(q) {
